@@ -18,6 +18,12 @@
 (*   formals   : `({ n ? v, .. }: body) { n = arg; .. }' - a directly        *)
 (*               applied function; k = "formal" with default v (or 0) and   *)
 (*               supplied argument arg (or 0): the ARGUMENT wins             *)
+(*               A formals frame may carry argn = "s": the call is           *)
+(*               `({ n ? v, .. }: body) s' - the argument is the NAME s,     *)
+(*               resolved AT THE CALL SITE (in the frames outside the        *)
+(*               formals frame, the call's own let included); a call whose   *)
+(*               argument does not resolve to a set is an error for every    *)
+(*               reference of the body.                                      *)
 (* The reference `x = name' sits in a holder set below the last frame (or   *)
 (* in the last frame itself when that is a set kind - the harness decides). *)
 (***************************************************************************)
@@ -25,11 +31,12 @@ EXTENDS Naturals, Sequences, FiniteSets, TLC
 
 BindIdx(f, n) == LET s == {i \in 1..Len(f.binds) : f.binds[i].n = n} IN IF s = {} THEN 0 ELSE CHOOSE i \in s : \A j \in s : i <= j
 Lexical(f) == f.kind \in {"let", "rec", "formals"}
+ArgName(f) == IF "argn" \in DOMAIN f THEN f.argn ELSE ""
 
 \* result: [ok |-> TRUE, v |-> literal, at |-> <<frame, name>>]
 \*     or  [ok |-> FALSE, why |-> "unbound" | "cycle", last |-> the last binding (name = value) that was followed,
 \*          <<0, n>> if none]
-RECURSIVE Walk(_, _, _, _, _), LookWith(_, _, _, _, _), LookLex(_, _, _, _, _), Follow(_, _, _, _, _)
+RECURSIVE Walk(_, _, _, _, _), LookWith(_, _, _, _, _), LookLex(_, _, _, _, _), Follow(_, _, _, _, _), ArgIsSet(_, _, _, _)
 
 \* the binding b of frame j was selected for the name: follow it
 Follow(ch, j, b, seen, last) ==
@@ -37,7 +44,15 @@ Follow(ch, j, b, seen, last) ==
     ELSE LET s2 == seen \cup {<<j, b.n>>}
              inner == IF Lexical(ch[j]) THEN j ELSE j - 1 IN     \* scope in which the right-hand side is evaluated
          CASE b.k = "lit" -> [ok |-> TRUE, v |-> b.v, at |-> <<j, b.n>>]
-           [] b.k = "formal" -> IF b.arg # 0 THEN [ok |-> TRUE, v |-> b.arg, at |-> <<j, b.n>>]
+           [] b.k = "formal" /\ ArgName(ch[j]) # "" ->
+                LET src == Walk(ch, j - 1, ArgName(ch[j]), s2, last) IN                           \* the argument, at the call site
+                IF ~src.ok THEN src
+                ELSE IF src.v # 999 THEN [ok |-> FALSE, why |-> "unbound", last |-> last]
+                ELSE LET hit == {i \in 1..Len(src.sv) : src.sv[i].n = b.n} IN
+                     IF hit # {} THEN [ok |-> TRUE, v |-> src.sv[CHOOSE i \in hit : TRUE].v, at |-> <<src.at[1], ArgName(ch[j])>>]
+                     ELSE IF b.v # 0 THEN [ok |-> TRUE, v |-> b.v, at |-> <<j, b.n>>]
+                     ELSE [ok |-> FALSE, why |-> "unbound", last |-> last]
+           [] b.k = "formal" /\ ArgName(ch[j]) = "" -> IF b.arg # 0 THEN [ok |-> TRUE, v |-> b.arg, at |-> <<j, b.n>>]
                                 ELSE IF b.v # 0 THEN [ok |-> TRUE, v |-> b.v, at |-> <<j, b.n>>]
                                 ELSE [ok |-> FALSE, why |-> "unbound", last |-> last]
            [] b.k = "setv" -> [ok |-> TRUE, v |-> 999, sv |-> b.sv, at |-> <<j, b.n>>]            \* a set, not a literal
@@ -51,8 +66,12 @@ Follow(ch, j, b, seen, last) ==
            [] b.k = "ref" -> Walk(ch, inner, b.m, s2, <<j, b.n>>)
            [] b.k = "inh" -> Walk(ch, j - 1, b.n, s2, last)          \* inherit: from outside frame j
 
+\* the argument name of a call resolves (at the call site) to a set
+ArgIsSet(ch, i, seen, last) == LET src == Walk(ch, i - 1, ArgName(ch[i]), seen, last) IN src.ok /\ src.v = 999
 LookLex(ch, i, n, seen, last) ==
     IF i = 0 THEN [ok |-> FALSE, why |-> "nolex", last |-> last]
+    ELSE IF ch[i].kind = "formals" /\ ArgName(ch[i]) # "" /\ ~ArgIsSet(ch, i, seen, last)
+         THEN [ok |-> FALSE, why |-> "unbound", last |-> last]                                    \* the call itself fails
     ELSE IF Lexical(ch[i]) /\ BindIdx(ch[i], n) # 0 THEN Follow(ch, i, ch[i].binds[BindIdx(ch[i], n)], seen, last)
     ELSE LookLex(ch, i - 1, n, seen, last)
 
@@ -77,9 +96,11 @@ C10_LetBeatsWith(ch, i, n) ==
     LET r == Resolve(ch, i, n, {}) IN
     (LexBinders(ch, i, n) # {} /\ r.ok) => \/ ch[r.at[1]].kind # "with"
                                            \/ \E j \in LexBinders(ch, i, n) : ch[j].binds[BindIdx(ch[j], n)].k # "lit"
+\* every call on the way has an argument that resolves to a set (a failing call fails every reference of its body)
+CallsOK(ch, i) == \A q \in 1..i : (ch[q].kind = "formals" /\ ArgName(ch[q]) # "") => ArgIsSet(ch, q, {}, <<0, "">>)
 \* the innermost lexical binder decides when it is a literal
 C10_InnermostWins(ch, i, n) ==
-    LexBinders(ch, i, n) # {} =>
+    (LexBinders(ch, i, n) # {} /\ CallsOK(ch, i)) =>
         LET j == CHOOSE x \in LexBinders(ch, i, n) : \A y \in LexBinders(ch, i, n) : x >= y
             b == ch[j].binds[BindIdx(ch[j], n)] IN
         b.k = "lit" => (Resolve(ch, i, n, {}).ok /\ Resolve(ch, i, n, {}).v = b.v /\ Resolve(ch, i, n, {}).at = <<j, n>>)
